@@ -357,6 +357,8 @@ func init() {
 		}
 		// (b2) in-place edits of a slice the library has already seen: the result must be that of a fresh slice with the same
 		// contents (nothing may be remembered about a caller's slice beyond the call)
+		var editCalls []*call
+		var editResults []string
 		for i, c := range w {
 			if c.fn != 0 || len(c.list) < 2 || i%3 != 0 {
 				continue
@@ -366,12 +368,32 @@ func init() {
 			j := rng.Intn(len(l))
 			l[j] = genValidTerm().text
 			r2 := implSat(c.expr, l)
+			implSat("MIT", []string{"ISC", "Zlib"}) // an unrelated call in between (a one-entry memo is evicted)
 			r3 := implSat(c.expr, append([]string{}, l...))
+			if r2.String() == r3.String() && len(editCalls) < 80 {
+				editCalls = append(editCalls, &call{fn: 0, expr: c.expr, list: append([]string{}, l...)})
+				editResults = append(editResults, r2.String())
+			}
 			res.Evaluations += 3
 			count("in_place_edits")
 			if r2.String() != r3.String() {
 				fail(failure{Stream: "oracle", What: "after an in-place edit of the caller's slice between two calls, Satisfies answers differently for that slice and for a fresh copy of it", Case: &kase{Expr: c.expr, Allowed: l, Extra: map[string]string{"edited_index": itoa(j), "first_list": hxl(c.list)}}, Impl: r2.String(), Expected: r3.String()})
 				break
+			}
+		}
+		// ... and the contents-only answers from ONE process that has never seen those slices
+		if exe, err := os.Executable(); err == nil && len(editCalls) > 0 {
+			perm := make([]int, len(editCalls))
+			for i := range perm {
+				perm[i] = i
+			}
+			if got, err := runChild(exe, editCalls, perm); err == nil {
+				for i := range editCalls {
+					if got[i] != editResults[i] {
+						fail(failure{Stream: "oracle", What: "after an in-place edit of the caller's slice between two calls, Satisfies answers differently than a fresh process does for the same contents", Case: &kase{Expr: editCalls[i].expr, Allowed: editCalls[i].list}, Impl: editResults[i], Expected: got[i]})
+						break
+					}
+				}
 			}
 		}
 		// (b3) CONCURRENT FIRST USE: fresh processes whose very first calls into the library come from many goroutines at
